@@ -740,7 +740,8 @@ def remap_by_types(
                 default_args_node, return_annotation_raw = _fill_in_default_arguments(
                     base_obj.method,
                     r_node,
-                    has_receiver=inspect.isfunction(base_obj.method)
+                    # (`inspect.signature` looks through wrappers - `functools.cache` - too)
+                    has_receiver=inspect.isfunction(inspect.unwrap(base_obj.method))
                     and not isinstance(
                         inspect.getattr_static(base_obj.method_class, m_name, None), staticmethod
                     ),
